@@ -1,13 +1,18 @@
 #!/bin/sh
-# For every kept seeded change: apply to /repo, run the check named in meta.json (property), expect exit 1; restore.
+# recheck_seeded.sh [seed...] : for every kept seeded change: apply to /repo, run the check named in meta.json (property) in the
+# quick tier with each seed (default 0), expect exit 1; restore /repo. Prints one line per (change, seed); "MISSED" marks exit 0.
 cd /repo || exit 2
 git diff --quiet || { echo "REPO DIRTY"; exit 2; }
+SEEDS="${*:-0}"
 for d in /verif/seeded/*/; do
   n=$(basename $d)
   p=$(python3 -c "import json;print(json.load(open('$d/meta.json'))['property'])")
   if ! git apply --check $d/patch.diff 2>/dev/null; then echo "$n $p NOAPPLY"; continue; fi
   git apply $d/patch.diff
-  out=$(cd /verif && ./vcheck $p --tier quick --no-evidence 2>&1); rc=$?
-  git checkout -- . 
-  echo "$n $p rc=$rc $(echo "$out" | grep -c '^VIOLATION') violations"
+  for s in $SEEDS; do
+    out=$(cd /verif && VERIF_SEED=$s ./vcheck $p --tier quick --no-evidence 2>&1); rc=$?
+    nv=$(echo "$out" | grep -c '^VIOLATION')
+    if [ $rc -eq 1 ]; then echo "$n $p seed=$s rc=$rc $nv violations"; else echo "$n $p seed=$s rc=$rc MISSED"; fi
+  done
+  git checkout -- .
 done
